@@ -1,6 +1,100 @@
-(* C39  The bootloader only touches white-listed memory.  Statements only; proofs in Boot/BootProofs.v. *)
-From BT Require Import Base.ListX Boot.BootModel Boot.BootSpec.
+(* C39  The bootloader only touches white-listed memory.  Statements only; proofs in Boot/Boot*.v.
+   The model (Boot/BootModel.v) transcribes bluetoe/services/bootloader.hpp with the three repairs
+   fix/C39-opc-read-length, fix/C39-flash-beyond-region, fix/C39-leave-flash-mode. *)
+From BT Require Import Boot.BootProofs.
 Local Open Scope N_scope.
+
+(* For every configuration with 0 < page size < 2^(8*address size) (wf_cfg), every list of regions,
+   every user handler oracle (check sum functions, version, memory content), and every sequence - of
+   any length - of writes to the control point and the data characteristic (request or command, any
+   bytes), handler completions, application call backs, l2cap_output polls, confirmations, handler
+   read errors and Read Requests on the three characteristic values: *)
+
+(* 1. no operation faults: no byte beyond the written control point value is read (the value is a
+      list read with nth_error), no assert of the library fires *)
+Theorem C39_reads_only_written_bytes :
+  forall (c : cfg) (o : oracle) (ops : list op), wf_cfg c ->
+    Forall (fun xr => ost (snd xr) <> SFault) (run c o init ops).
+Proof. exact reads_only_written_bytes. Qed.
+Print Assumptions C39_reads_only_written_bytes.
+
+(* 2. every read_mem, start_flash, public_read_mem and public_checksum32 call the library makes has an
+      address range that is empty or lies inside ONE white-listed region (call_ok / in_region) *)
+Theorem C39_touches_only_whitelisted_memory :
+  forall (c : cfg) (o : oracle) (ops : list op), wf_cfg c ->
+    Forall (fun xr => forallb (call_ok c) (ocalls (snd xr)) = true) (run c o init ops).
+Proof. exact touches_only_whitelisted. Qed.
+Print Assumptions C39_touches_only_whitelisted_memory.
+
+(* 3. the complete monitor: 1 + 2 + every flashed page is exactly the bytes the client sent at the
+      addresses it announced, completed by read back bytes; unbroken check sum chain; no data accepted
+      outside a Start Flash session; progress reports in order.  The full statement ... *)
+Definition C39_flashes_what_the_client_sent_full : Prop := monitor_accepts_full.
+
+(* ... is FALSE of the code: *)
+Theorem C39_flashes_what_the_client_sent_refuted : ~ C39_flashes_what_the_client_sent_full.
+Proof. exact monitor_accepts_refuted. Qed.
+Print Assumptions C39_flashes_what_the_client_sent_refuted.
+
+(* with these witnesses (replayed on the implementation: corpus/C39, known findings) *)
+Theorem C39_restart_while_flashing :
+  monitor cfgA (run cfgA (toy_oracle 8) init w_restart) = Some (5%nat, t_progress).
+Proof. exact restart_while_flashing. Qed.
+Theorem C39_read_request_on_progress :
+  monitor cfgA (run cfgA (toy_oracle 8) init w_read_progress) = Some (2%nat, t_progress).
+Proof. exact read_progress_frees_buffer. Qed.
+
+(* What does hold, for every configuration, oracle and operation sequence of any length: inside the
+   environment env_run (no Start Flash / Stop Flash / Get Version / Get Sizes while a flashed page
+   has not been reported, no Read Request on the progress characteristic; the handler reports each
+   flash operation at most once - built into the EndFlash operation) the complete monitor accepts.
+   Missing w.r.t. the full statement: exactly this environment hypothesis. *)
+Theorem C39_flashes_what_the_client_sent_partial :
+  forall (c : cfg) (o : oracle) (ops : list op), wf_cfg c ->
+    env_run c o init ops = true -> monitor c (run c o init ops) = None.
+Proof. exact monitor_accepts_in_environment. Qed.
+Print Assumptions C39_flashes_what_the_client_sent_partial.
+
+(* non-vacuity: the configuration of the tie is well formed; a history inside the environment that
+   flashes three pages, runs a Read procedure and a Get CRC and contains malformed writes *)
+Example C39_wf_nonvacuous : wf_cfg cfgA.
+Proof. exact wf_cfgA. Qed.
+Example C39_env_nonvacuous : env_run cfgA (toy_oracle 8) init good_history = true.
+Proof. exact good_history_in_env. Qed.
+Example C39_env_history_flashes_three_pages :
+  map (fun x => match x with CSf a _ => a | _ => 0 end)
+      (filter is_sf (flat_map (fun xr => ocalls (snd xr)) (run cfgA (toy_oracle 8) init good_history)))
+  = [4096; 4112; 4128].
+Proof. exact good_history_flashes. Qed.
+
+(* the monitor is not trivially accepting: it rejects the behaviour of the code before the repairs
+   (observed on /repo: corpus/C39/witnesses.trace) *)
+Example C39_monitor_rejects_overread :
+  monitor cfgA [(WCp [8], mkout SFault [])] = Some (0%nat, t_overread).
+Proof. vm_compute. reflexivity. Qed.
+Example C39_monitor_rejects_flash_behind_region :      (* Start Flash at the end address 0x1040 *)
+  monitor cfgA [(WCp (3 :: le8 4160), mkout SOk [CCs 4160 1; CRm 4160 []]);
+                (WData [1], mkout SOk [CCk [1] 1 2]);
+                (WCp [5], mkout SOk [CRm 4161 (repeat 0 15); CSf 4160 (1 :: repeat 0 15)])]
+  = Some (2%nat, t_range).
+Proof. vm_compute. reflexivity. Qed.
+Example C39_monitor_rejects_read_behind_region :
+  monitor cfgA [(Out, mkout (SInd ChData (repeat 0 20)) [CPr 4161 20 false; CCk (repeat 0 20) 1 2; CDicb])]
+  = Some (0%nat, t_range).
+Proof. vm_compute. reflexivity. Qed.
+Example C39_monitor_rejects_data_at_wrong_address :    (* data flashed at 0x1030 instead of 0x2000 *)
+  monitor cfgA [(WCp (3 :: le8 8192), mkout SOk [CCs 8192 1; CRm 8192 []]);
+                (WData bytes20, mkout SOk [CCk (firstn 16 bytes20) 1 2; CSf 4144 (firstn 16 bytes20)])]
+  = Some (1%nat, t_flashed).
+Proof. vm_compute. reflexivity. Qed.
+Example C39_monitor_rejects_broken_chain :
+  monitor cfgA [(WCp (3 :: le8 8192), mkout SOk [CCs 8192 1; CRm 8192 []]);
+                (WData [7], mkout SOk [CCk [7] 99 2])]
+  = Some (1%nat, t_crc).
+Proof. vm_compute. reflexivity. Qed.
+Example C39_monitor_rejects_data_without_start_flash :
+  monitor cfgA [(WData [7], mkout SOk [])] = Some (0%nat, t_outside).
+Proof. vm_compute. reflexivity. Qed.
 
 (* constants regenerated from bootloader.hpp / codes.hpp on every run *)
 From BT Require gen.GenBoot.
